@@ -12,8 +12,8 @@ from . import runner
 MUTANT_FILE = os.path.join(runner.VERIF, "engine", "mutants", "mutants.json")
 
 
-def load_mutants():
-    with open(MUTANT_FILE) as fh:
+def load_mutants(benign=False):
+    with open(MUTANT_FILE.replace("mutants.json", "benign.json") if benign else MUTANT_FILE) as fh:
         return json.load(fh)
 
 
@@ -87,6 +87,8 @@ def main(argv):
     import contextlib, io
     sel = argv[0] if argv else None
     allp = "--all-props" in argv
+    if sel == "benign":
+        return main_benign(argv[1:])
     ms = [m for m in load_mutants() if sel is None or sel.startswith("--") or m["id"].startswith(sel) or sel in m["properties"]]
     ok = 0
     for m in ms:
@@ -106,6 +108,33 @@ def main(argv):
         extra = {p: v for p, v in r["fired"].items() if v}
         print("%-34s %s fired=%s want=%s" % (m["id"], "CAUGHT" if hit else "MISSED", extra, sorted(want)))
     print("%d/%d caught" % (ok, len(ms)))
+
+
+def main_benign(argv):
+    """Behaviour-preserving refactorings: every check must stay silent; the edit must compile and pass the tests."""
+    import contextlib, io
+    bad = 0
+    argv = [a for a in argv if not a.startswith("--")]
+    ms = [m for m in load_mutants(True) if not argv or any(m["id"].startswith(a) for a in argv)]
+    for m in ms:
+        props = ["C%02d" % i for i in range(1, 19)]
+        with contextlib.redirect_stdout(io.StringIO()):
+            r = run_mutant(m, props)
+        if r["status"] != "ran":
+            print("%-40s %s: %s" % (m["id"], r["status"], r.get("why", "")[-300:]))
+            bad += 1
+            continue
+        fired = {p: v for p, v in r["fired"].items() if v}
+        tests = ""
+        if "--tests" in sys.argv:
+            tmp, root = scratch_copy()
+            apply_edit(root, m)
+            p = subprocess.run("cargo test --offline --lib 2>&1 | grep -E '^test result' | head -1", cwd=root, shell=True, stdout=subprocess.PIPE, text=True)
+            tests = p.stdout.strip()
+            shutil.rmtree(tmp, ignore_errors=True)
+        print("%-40s %s %s %s" % (m["id"], "FALSE-ALARM" if fired else "silent", fired or "", tests))
+        bad += 1 if fired else 0
+    print("%d/%d benign refactorings leave every check silent" % (len(ms) - bad, len(ms)))
 
 
 if __name__ == "__main__":
